@@ -342,7 +342,7 @@ fn adj_for_int(params: &Params, hours: &HashMap<Prayer, RefCell<Result<PrayerHou
         && params.extreme_latitude_method != HalfOfNightFajrIshaAlways
     {
         if params.intervals[&Fajr] != 0. {
-            let extreme = hours[&Fajr].borrow().unwrap().extreme;
+            let extreme = hours[&Fajr].borrow().map_or(false, |x| x.extreme);
             *hours[&Fajr].borrow_mut() = hours[&Shurooq].borrow().map(|mut x| {
                 x.value -= params.intervals[&Fajr] / MIN_SEC_PER_HR_MIN;
                 x.extreme = extreme;
@@ -351,7 +351,7 @@ fn adj_for_int(params: &Params, hours: &HashMap<Prayer, RefCell<Result<PrayerHou
         }
 
         if params.intervals[&Isha] != 0. {
-            let extreme = hours[&Isha].borrow().unwrap().extreme;
+            let extreme = hours[&Isha].borrow().map_or(false, |x| x.extreme);
             *hours[&Isha].borrow_mut() = hours[&Maghrib].borrow().map(|mut x| {
                 x.value += params.intervals[&Isha] / MIN_SEC_PER_HR_MIN;
                 x.extreme = extreme;
